@@ -186,10 +186,11 @@ func DecodeString(inp []byte, startIndex int) (str []byte, bytesRead int, err er
 	}
 
 	// collect and return string
-	dataEndIndex := dataStartIndex + dataSize
-	if dataEndIndex > len(inp) {
+	// NOTE: compare against the remaining length, the sum may overflow for huge sizes
+	if dataSize > len(inp)-dataStartIndex {
 		return nil, 0, ErrIncompleteInput
 	}
+	dataEndIndex := dataStartIndex + dataSize
 
 	return inp[dataStartIndex:dataEndIndex], dataEndIndex - startIndex, nil
 }
@@ -215,7 +216,8 @@ func DecodeList(inp []byte, startIndex int) (encodedItems [][]byte, bytesRead in
 		return retList, 1, nil
 	}
 
-	if listDataSize+dataStartIndex > len(inp) {
+	// NOTE: compare against the remaining length, the sum may overflow for huge sizes
+	if listDataSize > len(inp)-dataStartIndex {
 		return nil, 0, ErrIncompleteInput
 	}
 
@@ -228,10 +230,10 @@ func DecodeList(inp []byte, startIndex int) (encodedItems [][]byte, bytesRead in
 			return nil, 0, err
 		}
 		// collect encoded item
-		itemEndIndex = itemDataStartIndex + itemSize
-		if itemEndIndex > len(inp) {
+		if itemSize > len(inp)-itemDataStartIndex {
 			return nil, 0, ErrIncompleteInput
 		}
+		itemEndIndex = itemDataStartIndex + itemSize
 		retList = append(retList, inp[itemStartIndex:itemEndIndex])
 		dataBytesRead += itemEndIndex - itemStartIndex
 		itemStartIndex = itemEndIndex
